@@ -200,6 +200,7 @@ pub fn decompress_vector(value: &CompressedValue) -> Result<Vec<f32>, FormatErro
                 shape: shape.clone(),
                 ranks: ranks.clone(),
             };
+            tt.validate()?;
             Ok(tt_reconstruct(&tt))
         },
         CompressedValue::IdList(bytes) => {
